@@ -75,11 +75,30 @@ func c15Items(raw json.RawMessage) ([]c15Item, bool) {
 
 // what left the action
 type c15Obs struct {
-	ID     int    `json:"id"`
-	HasLog bool   `json:"has_log"`
-	IsStr  bool   `json:"is_str"`
-	Log    string `json:"log"`
-	Doc    string `json:"doc"`
+	ID     int             `json:"id"`
+	HasLog bool            `json:"has_log"`
+	IsStr  bool            `json:"is_str"`
+	Log    string          `json:"log"`
+	Doc    string          `json:"doc"`
+	ev     *pipeline.Event // the output EVENT itself: its text is looked at once more at the end of the case
+}
+
+// an output that keeps events for a while (every batching output) must still see the text the event had when it was
+// flushed: the joined text is a value fixed at the flush, not a view of the plugin's run buffer
+func c15LateChange(outs []c15Obs) (int, string) {
+	for i, o := range outs {
+		if !o.HasLog || o.ev == nil {
+			continue
+		}
+		if n := o.ev.Root.Dig("log"); n == nil || n.AsString() != o.Log {
+			late := "<no field>"
+			if n != nil {
+				late = n.AsString()
+			}
+			return i, late
+		}
+	}
+	return -1, ""
 }
 
 type c15Ctl struct {
@@ -88,7 +107,7 @@ type c15Ctl struct {
 }
 
 func (c *c15Ctl) record(e *pipeline.Event) {
-	o := c15Obs{ID: c.ids[e], Doc: e.Root.EncodeToString()}
+	o := c15Obs{ID: c.ids[e], Doc: e.Root.EncodeToString(), ev: e}
 	if n := e.Root.Dig("log"); n != nil {
 		o.HasLog = true
 		o.IsStr = n.IsString()
@@ -212,7 +231,7 @@ func c15RunJoinCase(c *c15Case, salt int, newPlugin func(salt int) (pipeline.Act
 	ctl := &c15Ctl{ids: map[*pipeline.Event]int{}}
 	params := test.NewEmptyActionPluginParams()
 	params.Controller = ctl
-	params.PipelineSettings = &pipeline.Settings{AvgEventSize: 64}
+	params.PipelineSettings = &pipeline.Settings{AvgEventSize: 4096} // the run buffer never has to grow
 	plugin.Start(config, params)
 
 	vals := make([]string, n)
@@ -278,6 +297,9 @@ func c15RunJoinCase(c *c15Case, salt int, newPlugin func(salt int) (pipeline.Act
 		if plugin.Do(events[k]) == pipeline.ActionPass {
 			ctl.record(events[k])
 		}
+	}
+	if i, late := c15LateChange(ctl.outs); i >= 0 {
+		return &c15Mismatch{Kind: "flushed_text_changed", Plugin: name, Case: c, Limit: limit, Got: ctl.outs, At: i, Panic: "text at the end of the case: " + late}, st
 	}
 	ok := c15Match(ctl.outs, exp, vals, docs, limit)
 	if !ok && hasAlt {
@@ -414,7 +436,7 @@ func c15RunPair(pr *c15Pair, salt int, newConfig func(salt int) (pipeline.AnyCon
 		ctls[s] = &c15Ctl{ids: map[*pipeline.Event]int{}}
 		params := test.NewEmptyActionPluginParams()
 		params.Controller = ctls[s]
-		params.PipelineSettings = &pipeline.Settings{AvgEventSize: 64}
+		params.PipelineSettings = &pipeline.Settings{AvgEventSize: 4096} // the run buffer never has to grow
 		plugins[s] = newPlugin()
 		plugins[s].Start(config, params)
 		n := len(cases[s].Seq)
@@ -471,6 +493,9 @@ func c15RunPair(pr *c15Pair, salt int, newConfig func(salt int) (pipeline.AnyCon
 		timeout(s)
 	}
 	for s := 0; s < 2; s++ {
+		if i, late := c15LateChange(ctls[s].outs); i >= 0 {
+			return &c15PairMismatch{Kind: "flushed_text_changed", Plugin: name, Shared: true, Pair: pr, Stream: s, Got: got(), Panic: fmt.Sprintf("output %d at the end: %s", i, late)}
+		}
 		exp, _ := c15Items(cases[s].Exp)
 		alt, hasAlt := c15Items(cases[s].Alt)
 		ok := c15Match(ctls[s].outs, exp, vals[s], docs[s], limit)
